@@ -453,6 +453,9 @@ func C15(c *hx.Ctx) {
 	c15Main(c, bin)
 	// the header predicates gxz detects formats with (Sniff.tla)
 	sniffTable(c)
+	// stale temporary files and an unwritable standard output
+	gxzStaleTemp(c, bin)
+	gxzFullStdout(c, bin)
 	// preset round trips and xz-utils interoperability
 	plain := MakeData("alternating", 60000, c.Seed)
 	for _, format := range []string{"xz", "lzma"} {
